@@ -12,15 +12,17 @@
   register/immediate fields and ALL states; the remaining classes are covered by the three-way differential only:
 
   (A) universal theorems (this file):
-      addu subu and or xor nor (incl. capstone's move/negu forms) · sll srl sra (and nop) · sllv srlv srav ·
-      addiu andi ori xori · lui · slt sltu slti sltiu · lb lbu lh lhu lw · sb sh sw ·
+      MIPS (mips, mipsel): addu subu and or xor nor (incl. capstone's move/negu forms) · sll srl sra (and nop) · sllv srlv srav ·
+      addiu andi ori xori · lui · slt sltu slti sltiu · movn movz · mfhi mflo mthi mtlo · mult multu · lb lbu lh lhu lw · sb sh sw ·
       beq bne bgez bgtz blez bltz b j, each with ANY of the above in the delay slot (`lift_correct_pair`).
+      PowerPC (every mnemonic the dispatcher lifts except bdnzl and the conditional bclr forms): addi/li addis/lis · add subf addze
+      (with Rc) · mr · nop · rlwinm/slwi (with Rc) · srawi (with Rc) · cmpwi cmplwi · lbz lwz lwzu · stw stwu stmw · mflr mtlr mtctr ·
+      b bl blr bctr (`ppc_lift_correct`).
   (B) none.
   (C) differential only (`unproved_classes` in the evidence):
-      add addi sub (trapping) · mult multu div divu madd maddu msub msubu mul · mfhi mflo mthi mtlo · movn movz · clz clo ·
-      lwl lwr swl swr ll sc pref sync · teq syscall break rdhwr · jr jal jalr bal bgezal bltzal (see the known findings:
-      these evaluate the target / condition / link AFTER the delay slot) · all of PowerPC (only the rlwinm mask constant is
-      proved: `ppc_mask_closed_form`).
+      MIPS: add addi sub (trapping) · div divu (zero divisor: finding) · madd maddu msub msubu mul · clz clo (loop graphs) ·
+      lwl lwr swl swr ll sc pref sync · teq syscall break rdhwr · jr jal jalr bal bgezal bltzal (known findings: target /
+      condition / link evaluated AFTER the delay slot).   PowerPC: bdnzl (finding: lifted as nop), conditional bclr.
 
   `StateOK σ`: the IL state defines `$at…$ra`, `$hi`, `$lo` as reduced 32-bit constants.  `absState σ` is the machine state
   it stands for (GPR[0] = 0; the scalar `$zero` is not part of it).  `Eqv u a b`: equal register files (HI/LO unless `u`, i.e.
@@ -29,6 +31,7 @@
 -/
 import FalconProofs.C02.InstrOK
 import FalconProofs.C02.PpcMask
+import FalconProofs.C02.PpcTop
 
 namespace Falcon.C02
 open Falcon Falcon.Isa.Mips
@@ -99,11 +102,44 @@ theorem scalar_write_is_register_write (σ : State) (rd : Reg) (v : Word) :
 theorem ppc_mask_closed_form : ∀ mb me : Fin 32, (Isa.Ppc.mask mb.val me.val).toNat = Isa.Ppc.maskLifter mb.val me.val :=
   Isa.Ppc.mask_eq_maskLifter
 
+/-! ### PowerPC -/
+
+/-- **PowerPC, one instruction word: all fields, all states.**  For every word `w` the PPC mirror lifts, every address and every
+    IL state holding a PPC machine state (r0…r31, lr, ctr 32-bit; carry and the 32 CR bits 1-bit; big-endian memory): if the
+    manual's `step` completes (no unmapped byte, no invalid form), running the lifted block with the IL semantics completes with
+    the same GPRs, LR, CTR, CA, memory and next pc, and the same CR bits — except the SO bit of the field a compare or a record
+    form writes (`skipOf`: falcon has no scalar for XER[SO]; known finding `C02/ppc/*/cr-so`).  `noWrap`: a memory access does
+    not wrap around 2^32.  For `stmw` this pins the number of stored words to 32 - rs for every rs. -/
+theorem ppc_lift_correct (w : Isa.Ppc.Word) (addr : Nat) (r : BTR) (σ : State) (i : Isa.Ppc.Instr)
+    (hd : Isa.Ppc.decode w = some i) (hl : Isa.Ppc.liftBTR [w] addr = some r) (ha : addr + 4 < 2 ^ 32)
+    (hσ : Isa.Ppc.StateOK σ) (hw : Isa.Ppc.noWrap i (Isa.Ppc.absState σ))
+    (s' : Isa.Ppc.St) (pc' : Isa.Ppc.Word)
+    (hx : Isa.Ppc.step w (BitVec.ofNat 32 addr) (Isa.Ppc.absState σ) = .next s' pc') :
+    ∃ σ', runBTR r σ = .next σ' [pc'.toNat] ∧ Isa.Ppc.StateOK σ' ∧
+      Isa.Ppc.Agree (Isa.Ppc.skipOf i) (Isa.Ppc.absState σ') s' :=
+  Isa.Ppc.lift_correct w addr r σ i hd hl ha hσ hw s' pc' hx
+
+/-- `stmw rs, d(ra)` stores exactly 32 - rs words: the mirror's graph has that many operations (and `ppc_lift_correct` shows
+    that running them yields the interpreter's memory) -/
+theorem ppc_stmw_store_count (ra : Isa.Ppc.Reg) (d n k : Nat) : (Isa.Ppc.stmwOps ra d n k).length = n :=
+  Isa.Ppc.stmwOps_length ra d n k
+
 /-! ### non-vacuity: concrete words are lifted by the mirror and the hypotheses are satisfiable -/
 
 /-- `addu $v0, $a0, $a1` (0x00851021) and `beq $a0, $a1, +4 ; addiu $a0, $a0, 1` are in the domain of the theorems -/
 example : (liftBTR true [0x00851021#32] 0x1000).isSome = true := by decide
 example : (liftBTR true [0x10850004#32, 0x24840001#32] 0x1000).isSome = true := by decide
 example : (liftBTR false [0x8c820010#32] 0x1000).isSome = true := by decide      -- lw $v0, 16($a0)
+example : (liftBTR true [0x00850018#32] 0x1000).isSome = true := by decide       -- mult $a0, $a1
+example : (liftBTR true [0x0085100b#32] 0x1000).isSome = true := by decide       -- movn $v0, $a0, $a1
+example : (liftBTR true [0x00001010#32] 0x1000).isSome = true := by decide       -- mfhi $v0
+example : (Isa.Ppc.liftBTR [0x7c642a14#32] 0x1000).isSome = true := by decide    -- add r3,r4,r5
+example : (Isa.Ppc.liftBTR [0x7c840195#32] 0x1000).isSome = true := by decide    -- addze. r4,r4
+example : (Isa.Ppc.liftBTR [0x54648e66#32] 0x1000).isSome = true := by decide    -- rlwinm r4,r3,17,25,19
+example : (Isa.Ppc.liftBTR [0xbc64f0f6#32] 0x1000).isSome = true := by decide    -- stmw r3,-3850(r4)
+example : (Isa.Ppc.liftBTR [0x8464f0f6#32] 0x1000).isSome = true := by decide    -- lwzu r3,-3850(r4)
+example : (Isa.Ppc.liftBTR [0x2d04f0f6#32] 0x1000).isSome = true := by decide    -- cmpwi cr2,r4,-3850
+example : (Isa.Ppc.liftBTR [0x48ebf0f5#32] 0x1000).isSome = true := by decide    -- bl
+example : (Isa.Ppc.liftBTR [0x4e800020#32] 0x1000).isSome = true := by decide    -- blr
 
 end Falcon.C02
